@@ -26,18 +26,28 @@ Events (plain data, valid in a rebuilt world):
   ('orphan', host)      a request of the application to that host is not answered in time: the client-side timeout
                         orphans its stream; with connection_class.orphaned_threshold = 1 the connection is now marked
                         for replacement *while it stays open* (the next 'touch' makes HostConnection schedule _replace)
+  ('resume',)           (params 'suspend') the executor task that was suspended in a blocking wait continues, now that
+                        what it waited for has happened.  With 'suspend' a task is not atomic: it runs in a coroutine
+                        of its own; a USE it sends (the blocking one of a new pool / a replacement connection) is held
+                        by the server like every other USE, and when the wait for it cannot be satisfied the task is
+                        suspended there - exactly where the executor thread would be blocked - while the explorer goes
+                        on with the other events (USE results of the application, answers, the next switch).  The held
+                        USE of a task is only answered successfully.
 Canonical state (KsWorld.canon): the USE future (done, exception type, retries, connection), session.keyspace, per
 pool (host, class, shut down, _keyspace, connection ids, _is_replacing / open_count / _scheduled_for_creation, trash
 size), per host (up, reconnecting), per connection (id, host, in_flight, closed, defunct, driver-side and server-side
 keyspace, outstanding streams, marked for replacement, orphaned streams), held requests, scheduled tasks, timers, queued
 task labels, and the oracle memory (of the current switch, plus its index, the number of 'orphan' events and the
 reported outcomes of the earlier switches; those were judged in the states before the next one was issued and
-otherwise live on only in the driver state above).
+otherwise live on only in the driver state above), and with 'suspend' the USEs sent so far by executor tasks plus
+whether a task is suspended and whether what it waits for has happened.
 Which pools have already called back is a function of (pool situations at the switch, USEs answered), both part of
 the oracle memory.  checks/c20.py compares dedup against no-dedup runs in the thorough tier (also for a two-switch
 configuration).
 """
 import gc
+
+import greenlet
 
 from vt import explore, sched
 from vt.core import HarnessError
@@ -89,7 +99,9 @@ class KsWorld(object):
     """params: hosts, proto (4|2), core (v2 connections per host), ks0 (keyspace at connect or None),
     convict (bool), entry ('use'|'set_keyspace'), timeout (None|float), switches (target keyspace of every
     switch of the application, default ('ks2',)), max_orphan (number of 'orphan' events; > 0 selects the
-    connection class with orphaned_threshold = 1)"""
+    connection class with orphaned_threshold = 1), renew (the pool of the last host is being (re)created when the
+    history starts: its creation task is queued), suspend (executor tasks are coroutines that are suspended in
+    blocking waits, see the module docstring)"""
 
     def __init__(self, params, issue=True):
         self.p = p = dict(params)
@@ -133,6 +145,18 @@ class KsWorld(object):
             self.future = None
             self.base_vid = len(self.w.conns)
             self.hosts = sorted(self.cluster.metadata.all_hosts(), key=addr)
+            # tasks as coroutines
+            self.suspend = bool(p.get('suspend'))
+            self.suspended = None       # (greenlet, predicate) of the task blocked in a wait
+            self.task_uses = []         # USE statements sent by executor tasks (suspend mode), in order
+            self.creating = None        # address of the host whose pool is being created (params 'renew')
+            self._aborting = False
+            if self.suspend:
+                self._main = greenlet.getcurrent()
+                self._plain_pump = self.w.pump
+                self.w.pump = self._pump
+            if p.get('renew') and issue:
+                self.begin_renew()
             if issue:
                 self.issue()
         except BaseException:
@@ -140,7 +164,10 @@ class KsWorld(object):
             raise
 
     def close(self):
-        self.w.__exit__()
+        try:
+            self.abort_suspended()
+        finally:
+            self.w.__exit__()
 
     # ------------------------------------------------------------------ server policy
     def _hold(self, conn, req):
@@ -149,8 +176,79 @@ class KsWorld(object):
         q = req.get('query', '')
         if q == user_use(self.target) or q == SLOW:
             return True         # the application's statement (also when a task re-sends it to the next host)
-        # USEs sent by a task are the blocking ones on a replacement connection / a new pool
-        return not self.in_task and q.strip().upper().startswith('USE ')
+        if not q.strip().upper().startswith('USE '):
+            return False
+        # USEs sent by a task are the blocking ones on a replacement connection / a new pool: answered at once,
+        # unless tasks are coroutines (then the task is suspended in its wait and the explorer answers)
+        if self.in_task and self.suspend:
+            self.task_uses.append((conn.vid, q))
+            return True
+        return not self.in_task
+
+    def from_task(self, q):
+        return (q.conn.vid, q.req.get('query', '')) in self.task_uses and not self.is_initial(q)
+
+    # ------------------------------------------------------------------ executor tasks as coroutines
+    def _pump(self, pred=None):
+        """World.pump for a world whose executor tasks are coroutines: a wait inside a task that the auto server
+        cannot satisfy suspends the task (the executor thread would be blocked there) instead of timing out."""
+        self._plain_pump(pred)
+        g = greenlet.getcurrent()
+        if pred is None or g is self._main or not self.suspend:
+            return
+        while not pred():
+            if self.session._lock._owner is not None:
+                raise HarnessError('task blocks while it holds the session lock')
+            self.suspended = (g, pred)
+            self._main.switch()
+            # resumed by the explorer
+            self.suspended = None
+            if self._aborting:
+                raise WouldBlock('world closed while the task was suspended')
+            self._plain_pump(pred)
+
+    def _enter_task(self, g):
+        self.in_task = True
+        try:
+            g.switch()
+        finally:
+            self.in_task = False
+        if g.dead and getattr(g, 'failure', None) is not None:
+            raise g.failure
+
+    def can_resume(self):
+        return self.suspended is not None and bool(self.suspended[1]())
+
+    def resume(self):
+        if not self.can_resume():
+            raise HarnessError('no task to resume')
+        self._enter_task(self.suspended[0])
+
+    def abort_suspended(self):
+        if self.suspended is not None:
+            g = self.suspended[0]
+            self._aborting = True
+            try:
+                g.switch()
+            except BaseException:
+                pass
+            self.suspended = None
+
+    def begin_renew(self):
+        """The pool of the last host is being (re)created, as after the host came back up: the creation task is
+        queued on the executor."""
+        victim = self.hosts[-1]
+        self.session.remove_pool(victim)
+        prev, self.w.manual = self.w.manual, False
+        try:
+            self.w.pump()
+        finally:
+            self.w.manual = prev
+        self.session.add_or_renew_pool(victim, False)
+        if victim in self.session._pools or len(self.w.tasks) != 1:
+            raise HarnessError('setup: expected exactly the pool-creation task')
+        self.creating = addr(victim)
+        self.base_vid = len(self.w.conns)
 
     def _on_request(self, server, conn, stream, req):
         if req['op'] == 'QUERY' and req.get('query') == 'SELECT probe':
